@@ -132,13 +132,57 @@ class Solution:
     (var, constraint index) - variables eliminated as linear absorbers: each occurs only in the
     C side of exactly one remaining constraint, so whatever the other variables are there is exactly
     one value for it (solve in reverse order)."""
-    __slots__ = ("asg", "free", "dependent", "exist")
+    __slots__ = ("asg", "free", "dependent", "exist", "affine")
 
-    def __init__(self, asg, free, dependent=(), exist=None):
+    def __init__(self, asg, free, dependent=(), exist=None, affine=None):
         self.asg, self.free, self.dependent = asg, free, list(dependent)
+        # affine: {var: (const, {free var: coeff})} - pivot variables of the linear part of the
+        # remaining constraints (Gaussian elimination): determined by the free variables
+        self.affine = affine or {}
         # exist: variables of constraint components that do not touch the wires of interest and
         # that the honest witness satisfies: only their existence matters (value = honest one)
         self.exist = exist or {}
+
+
+def gauss(rows, p):
+    """Solve the linear system {sum coef*var = rhs} over F_p.  Returns (pivots, consistent) with
+    pivots = {var: (const, {non-pivot var: coeff})}."""
+    rows = [(dict((v, c % p) for v, c in r.items() if c % p), rhs % p) for r, rhs in rows]
+    piv_rows = []                       # (pivot var, row dict normalised to coeff 1, rhs)
+    for r, rhs in rows:
+        r = dict(r)
+        for pv, pr, prhs in piv_rows:   # eliminate known pivots
+            c = r.pop(pv, 0)
+            if c:
+                for v, cv in pr.items():
+                    if v != pv:
+                        r[v] = (r.get(v, 0) - c * cv) % p
+                rhs = (rhs - c * prhs) % p
+        r = {v: c for v, c in r.items() if c}
+        if not r:
+            if rhs:
+                return {}, False
+            continue
+        pv = max(r)                     # pivot on the latest-created variable
+        inv = pow(r[pv], -1, p)
+        nr = {v: c * inv % p for v, c in r.items()}
+        nrhs = rhs * inv % p
+        # back-substitute into earlier pivot rows
+        for i, (qv, qr, qrhs) in enumerate(piv_rows):
+            c = qr.get(pv, 0)
+            if c:
+                qr = dict(qr)
+                del qr[pv]
+                for v, cv in nr.items():
+                    if v != pv:
+                        qr[v] = (qr.get(v, 0) - c * cv) % p
+                qr = {v: cc for v, cc in qr.items() if cc or v == qv}
+                piv_rows[i] = (qv, qr, (qrhs - c * nrhs) % p)
+        piv_rows.append((pv, nr, nrhs))
+    piv = {}
+    for pv, pr, prhs in piv_rows:
+        piv[pv] = (prhs % p, {v: (-c) % p for v, c in pr.items() if v != pv and c % p})
+    return piv, True
 
 
 def exact(cons, nvars, fixed, p, max_leaves=1 << 14, relevant=None, honest=None):
@@ -237,6 +281,7 @@ def exact(cons, nvars, fixed, p, max_leaves=1 << 14, relevant=None, honest=None)
         free = [v for v in range(1, nvars + 1) if v not in asg]
         dependent = []
         exist = {}
+        affine = {}
         if pending:
             # constraints with >= 2 unknowns remain.  Eliminate linear absorbers: an unknown that
             # occurs in exactly one live constraint, only on its C side.
@@ -268,6 +313,42 @@ def exact(cons, nvars, fixed, p, max_leaves=1 << 14, relevant=None, honest=None)
                             break
                     if changed:
                         break
+            if pend:
+                # linear part of what is still pending: Gaussian elimination over F_p
+                rows, lin_idx = [], set()
+                for idx in sorted(pend):
+                    A, B, C = cons[idx]
+                    a0, au = split(A, asg)
+                    b0, bu = split(B, asg)
+                    c0, cu = split(C, asg)
+                    if au and bu:
+                        continue                    # product of two unknown combinations
+                    row = {}
+                    for v, c in bu.items():
+                        row[v] = (row.get(v, 0) + a0 * c) % p
+                    for v, c in au.items():
+                        row[v] = (row.get(v, 0) + b0 * c) % p
+                    for v, c in cu.items():
+                        row[v] = (row.get(v, 0) - c) % p
+                    rows.append((row, (c0 - a0 * b0) % p))
+                    lin_idx.add(idx)
+                if rows:
+                    piv, consistent = gauss(rows, p)
+                    if not consistent:
+                        return                      # no solution in this branch
+                    det = {v: k for v, (k, deps) in piv.items() if not deps}
+                    if det:
+                        a2 = dict(asg)
+                        a2.update(det)
+                        stats["leaves"] -= 1
+                        rec(a2, live)               # uniquely determined variables: propagate again
+                        return
+                    nonlin = pend - lin_idx
+                    nl_vars = {v for idx in nonlin for d in cons[idx] for v in d if v != 0 and v not in asg}
+                    lin_vars = {v for r, _ in rows for v in r}
+                    if not (nl_vars & lin_vars):
+                        affine = piv
+                        pend = nonlin
             if pend and relevant is not None and honest is not None:
                 # connected components (by shared unknowns) of the constraints still pending; a
                 # component that does not touch the wires of interest only has to be satisfiable,
@@ -297,7 +378,7 @@ def exact(cons, nvars, fixed, p, max_leaves=1 << 14, relevant=None, honest=None)
                 for idxs, vs in comps:
                     if not idxs:
                         continue
-                    if vs & relevant or vs & dep_vars:
+                    if vs & relevant or vs & dep_vars or vs & set(affine) or any(vs & set(d) for _, d in affine.values()):
                         ok = False
                         break
                     trial = dict(asg)
@@ -319,9 +400,9 @@ def exact(cons, nvars, fixed, p, max_leaves=1 << 14, relevant=None, honest=None)
                 undecided.append((asg, free))
                 return
             dep = {v for v, _ in dependent}
-            free = [v for v in free if v not in dep and v not in exist]
+            free = [v for v in free if v not in dep and v not in exist and v not in affine]
         # remaining live constraints vanish identically in their single unknown -> unknowns free
-        sols.append(Solution(asg, free, dependent, exist))
+        sols.append(Solution(asg, free, dependent, exist, affine))
 
     rec({k: v % p for k, v in fixed.items()}, list(range(len(cons))))
     return sols, undecided, stats
@@ -339,7 +420,7 @@ def depends_on_free(lc, free, p):
 
 
 def depends_on_dependent(lc, sol, p):
-    return [v for v, _ in sol.dependent if lc.get(v, 0) % p]
+    return [v for v, _ in sol.dependent if lc.get(v, 0) % p] + [v for v in sol.affine if lc.get(v, 0) % p]
 
 
 def verify(cons, asg_full, p):
@@ -357,7 +438,10 @@ def expand(sol, p, nvars, cap=200000, cons=None):
         raise Capped("expansion cap")
     for combo in itertools.product(range(p), repeat=len(sol.free)):
         a = dict(sol.asg)
+        a.update(sol.exist)
         a.update(zip(sol.free, combo))
+        for v, (k, deps) in sol.affine.items():
+            a[v] = (k + sum(c * a[f] for f, c in deps.items())) % p
         if sol.dependent:
             a[0] = 1
             for v, idx in reversed(sol.dependent):
@@ -375,6 +459,8 @@ def complete(sol, cons_reduced, free_values, p):
     a.update(sol.exist)
     for f in sol.free:
         a[f] = free_values[f] % p
+    for v, (k, deps) in sol.affine.items():
+        a[v] = (k + sum(c * a[f] for f, c in deps.items())) % p
     a[0] = 1
     for v, idx in reversed(sol.dependent):
         A, B, C = cons_reduced[idx]
@@ -433,4 +519,10 @@ def affine_wire(lc, sol, cons_reduced, p):
                 unk[w] = (unk.get(w, 0) + c * cw * f * inv) % p
         for w, cw in cu.items():
             unk[w] = (unk.get(w, 0) - c * cw * inv) % p
+    for v in [v for v in unk if v in sol.affine]:
+        c = unk.pop(v)
+        k, deps = sol.affine[v]
+        const += c * k
+        for f, cf in deps.items():
+            unk[f] = (unk.get(f, 0) + c * cf) % p
     return const % p, {k: c for k, c in unk.items() if c % p}
